@@ -380,6 +380,18 @@ pub fn run<G: Grp>(m: &mut Machine, name: &str, args: &[Val]) -> R<Out> {
                 }
             }
         }
+        // msm_pre256x l:table_points l:points l:scalars — the table covers more points than are passed
+        "msm_pre256x" => {
+            let tp = affines_of::<G>(arg(args, 0)?)?;
+            let pts = affines_of::<G>(arg(args, 1)?)?;
+            let sc = scalars_of(arg(args, 2)?)?;
+            let refs: Vec<&[u64; 4]> = sc.iter().collect();
+            let mut pre = vec![G::A::one(); 256 * tp.len()];
+            for (i, q) in tp.iter().enumerate() {
+                q.precomp_256(&mut pre[i * 256..(i + 1) * 256]);
+            }
+            ok1(G::wp(G::A::sum_of_products_precomp_256(&pts, &refs, &pre)))
+        }
         // msm_prog A0 D n:count w:seed n:window(0 = default entry) n:nsample
         // points P_i = A0 + i*D (i < count), scalars from SplitMix64(seed) with the top bit cleared;
         // special entries: every 97th point is the identity, every 101st repeats the previous point,
